@@ -261,6 +261,65 @@ pub fn run_hist<T: Elem>(ops: &[Op], obs: &mut Vec<u64>) {
     obs.push(if T::TRACK { ledger_live() } else { 0 });
 }
 
+/// family 2: the same histories on a zero-sized element type, observed through counts
+pub fn emit_zst(out: &mut Out, prop: u32, ops: &[Op]) {
+    let mut inp = vec![DBG as u64, 0, 2, 1, ops.len() as u64];
+    for op in ops {
+        op.encode(&mut inp);
+    }
+    if out.want_sample() {
+        out.sample(&format!("C{:02} zero-sized elements history={:?}", prop, ops));
+    }
+    out.begin(prop, 2, &inp);
+    let mut obs = vec![];
+    ZLIVE.with(|c| c.set(0));
+    let mut t: TooDee<Zt> = TooDee::default();
+    for op in ops {
+        let mut ret: Vec<u64> = vec![];
+        let ok = catch_unwind(AssertUnwindSafe(|| apply(&mut t, op, &mut ret))).is_ok();
+        let (c, r) = t.size();
+        obs.extend([ok as u64, c as u64, r as u64, t.data().len() as u64, ZLIVE.with(|c| c.get()) as u64]);
+    }
+    drop(t);
+    obs.push(ZLIVE.with(|c| c.get()) as u64);
+    out.end(&obs);
+}
+
+fn zst_safe(op: &Op) -> bool {
+    // a zero-sized Vec never fails to allocate: huge accepted sizes would loop for ever
+    let small = |x: &u64| *x <= 64;
+    match op {
+        Op::New(c, r) | Op::Init(c, r, _) => small(c) && small(r),
+        Op::InsertRow(_, s) | Op::PushRow(s) | Op::InsertCol(_, s) | Op::PushCol(s) => small(&s.claimed),
+        Op::Capacity(..) => true,
+        Op::Bomb(..) => false,
+        _ => true,
+    }
+}
+
+/// zero-sized elements: exhaustive insert/remove on small shapes plus random histories
+pub fn gen_zst(out: &mut Out, prop: u32, tier: &str, rng: &mut Rng) {
+    let max = if tier == "quick" { 3 } else { 5 };
+    for (c, r) in shapes(max) {
+        for idx in 0..=r.max(c) + 1 {
+            for l in [c, r, c + 1, 0, 1] {
+                let s = Script::honest(ids(l as usize, 1));
+                for op in [Op::InsertRow(idx, s.clone()), Op::InsertCol(idx, s.clone()), Op::PushRow(s.clone()), Op::PushCol(s.clone()),
+                           Op::RemoveRow(idx, vec![DStep::Front, DStep::Len], DEnd::Drop), Op::RemoveCol(idx, vec![DStep::Back], DEnd::Drop)] {
+                    emit_zst(out, prop, &[FromVecOp(c, r), op, Op::PopCol(vec![], DEnd::Drop), Op::DropArr]);
+                }
+            }
+        }
+    }
+    let n = if tier == "quick" { 800 } else { 20000 };
+    for _ in 0..n {
+        let len = 1 + rng.below(12) as usize;
+        let mut ops: Vec<Op> = rand_history(rng, len, true, false).into_iter().filter(zst_safe).collect();
+        ops.push(Op::DropArr);
+        emit_zst(out, prop, &ops);
+    }
+}
+
 pub fn encode_input(track: bool, spare: u64, ops: &[Op]) -> Vec<u64> {
     let mut inp = vec![DBG as u64, if track { 8 } else { 4 }, spare, track as u64, ops.len() as u64];
     for op in ops {
@@ -281,12 +340,12 @@ pub fn emit(out: &mut Out, prop: u32, track: bool, ops: &[Op]) {
 }
 
 /// re-run a recorded input (replay / shrinking)
-pub fn replay(out: &mut Out, prop: u32, inp: &[u64]) {
+pub fn replay(out: &mut Out, prop: u32, fam: u32, inp: &[u64]) {
     let track = inp[3] != 0;
     let n = inp[4];
     let mut it = inp[5..].iter();
     let ops: Vec<Op> = (0..n).map(|_| Op::decode(&mut it)).collect();
-    emit(out, prop, track, &ops);
+    if fam == 2 { emit_zst(out, prop, &ops) } else { emit(out, prop, track, &ops) }
 }
 
 // ---------------------------------------------------------------------------------------
